@@ -1004,6 +1004,13 @@ def run(ctx):
         for ps in _pspecs(n, thorough, 6):
             cases.append((n, d, m, 1, ps, ["asis", "sorted", "rot"]
                           if thorough else ["asis", "sorted"]))
+    # directed networks: the node lists are renumbered element by element
+    # (that is what the property states); re-ordering a list is NOT applied
+    # here, because the triangular loops of the directed cross clustering
+    # count a one-way link by list position on the unchanged library
+    for (n, d, m) in [g for g in dire if g[0] >= 3]:
+        for ps in _pspecs(n, thorough, 6):
+            cases.append((n, d, m, 1, ps, ["asis"]))
     ctx.explore("groups", cases, desc="InteractingNetworks: node-group "
                 "methods, groups mapped through the permutation; list order "
                 "as mapped, sorted by new number, rotated")
